@@ -229,6 +229,8 @@ class Engine:
         if not assign["files"] and not (spec["has_q"] and assign["q_own"]):
             assign["files"][names[-1]] = 1
         return {"kind": config, "spec": spec, "assign": assign, "layout": rng.choice(["flat", "nested", "package_mo"]),
+                # the folder's own name is an input too (blanks, glob metacharacters)
+                "dirname": rng.choice(["lib", "lib", "my lib", "lib [v2]", "run[1]", "a*b?"]),
                 "order_seed": rng.randrange(1 << 30), "perm": None}
 
     def shrink_candidates(self, plan):
@@ -357,7 +359,7 @@ class Engine:
         import tools.compiler as C
 
         sandbox = util.new_sandbox()
-        mdir = os.path.join(sandbox, "lib")
+        mdir = os.path.join(sandbox, plan.get("dirname", "lib"))
         os.makedirs(mdir)
         paths = []
         for k, (rel, txt, _own) in enumerate(files):
@@ -480,4 +482,43 @@ class Engine:
             if viol:
                 plan = dict(plan, perm=list(order))
                 break
+        if viol is None and len(files) >= 2 and not plan.get("perm"):
+            viol = self.run_folders(plan, spec, files, targets, api_ref, sandbox, log, counts, distinct, split_shape)
         return viol, plan
+
+    def run_folders(self, plan, spec, files, targets, api_ref, sandbox, log, counts, distinct, split_shape):
+        """The files spread over several folders (the model folder and library folders): the order in which the folders
+        are given is the schedule.  Every order must give what the single-file library gives."""
+        import pymoca.backends.casadi.api as api
+
+        rng = random.Random(plan["order_seed"] + 1)
+        n_f = min(len(files), rng.choice([2, 2, 3]))
+        folders = [os.path.join(sandbox, "f%d" % k) for k in range(n_f)]
+        for d in folders:
+            os.makedirs(d)
+        for k, (rel, txt, _own) in enumerate(files):
+            with fsim.REAL_OPEN(os.path.join(folders[k % n_f], rel), "w") as f:
+                f.write(txt)
+        fs = fsim.FsSeam(sandbox, None, None)
+        with fs:
+            for order in itertools.permutations(range(n_f)):
+                pc = "own_folder_first" if order[0] == 0 else ("own_folder_last" if order[-1] == 0 else "interleaved")
+                distinct.add(canon.digest((split_shape, pc, "folders", n_f, tuple(order))))
+                counts["probe:folders_" + pc] = counts.get("probe:folders_" + pc, 0) + 1
+                for c in targets[:2]:
+                    if api_ref.get(c, ("fail",))[0] != "ok":
+                        continue
+                    try:
+                        m = api.transfer_model(folders[order[0]], c, {"replace_constant_values": True,
+                                                                      "library_folders": [folders[i] for i in order[1:]]})
+                        out = ("ok", self.var_names(m))
+                    except Exception as e:
+                        out = ("fail", type(e).__name__)
+                    log.add(0, 0, "folders", "%s %s %s" % (list(order), c, out[0]))
+                    if out != api_ref[c]:
+                        return ("exception" if out[0] != "ok" else "wrong_result", "api:_compile_model",
+                                ["api_folders", pc, "class_fails" if out[0] != "ok" else "different_variables"],
+                                "transfer_model(%s) with the files spread over folders %s given in order %s %s; from the "
+                                "single-file library it compiles" % (c, ["f%d" % k for k in range(n_f)], list(order),
+                                                                    "raises %s" % out[1] if out[0] != "ok" else "has other variables"))
+        return None
